@@ -27,6 +27,13 @@ from .world import strip_docstring
 class Interp(Run, StmtMixin, ExprMixin, CallMixin, BuiltinMixin, LoopMixin, SpecMixin):
     def __init__(self, world, unit, script, opts):
         Run.__init__(self, world, unit, script, opts)
+        # classes that have a schema are known classes (declared base-first)
+        pending = [s for s in SCHEMAS.values() if s.name != "*" and s.name not in CLASSES.by_name]
+        for _ in range(len(pending) + 1):
+            for s in list(pending):
+                if all(b in CLASSES.by_name or b not in SCHEMAS for b in s.bases):
+                    CLASSES.declare(s.name, s.bases)
+                    pending.remove(s)
         self.exact_class = {}
         self.elem_hints = {}
         self.key_hints = {}
@@ -294,7 +301,21 @@ class Interp(Run, StmtMixin, ExprMixin, CallMixin, BuiltinMixin, LoopMixin, Spec
             # the unit is a statement region of the function (a loop or its
             # body); its parameters are the live-in variables the contract names
             rkind, _, rkey = region.partition(":")
+            want = 0
+            if "#" in rkey:  # '<key>#k': the k-th region with that key (source order)
+                rkey, _, k = rkey.rpartition("#")
+                want = int(k)
+            matches = []
             for nd in ast.walk(node):
+                if (isinstance(nd, ast.For) and "for:" + ast.unparse(nd.iter) == rkey) or \
+                        (isinstance(nd, ast.While) and "while:" + ast.unparse(nd.test) == rkey) or \
+                        (isinstance(nd, ast.Assign) and rkind == "assign" and ast.unparse(nd.targets[0]) == rkey) or \
+                        (isinstance(nd, ast.If) and rkind == "if" and ast.unparse(nd.test) == rkey):
+                    matches.append(nd)
+            matches.sort(key=lambda x: (x.lineno, x.col_offset))
+            if want and len(matches) >= want:
+                region_node = matches[want - 1]
+            for nd in (ast.walk(node) if not want else ()):
                 if isinstance(nd, ast.For) and "for:" + ast.unparse(nd.iter) == rkey:
                     region_node = nd
                 elif isinstance(nd, ast.While) and "while:" + ast.unparse(nd.test) == rkey:
@@ -346,6 +367,20 @@ class Interp(Run, StmtMixin, ExprMixin, CallMixin, BuiltinMixin, LoopMixin, Spec
                     if isinstance(nd, ast.FunctionDef) and nd is not node and id(nd) not in skip \
                             and nd.name not in fr.vars:
                         fr.vars[nd.name] = py(PyFunc(nd, fr, mi, qual + "." + nd.name), "func")
+                # the function itself and the functions defined next to it in the
+                # enclosing function(s) are visible too (closures of the same scope)
+                segs = qual.split(".")
+                for depth, encl in enumerate(chain):
+                    if not isinstance(encl, ast.FunctionDef):
+                        continue
+                    prefix = ".".join(segs[: depth])
+                    for st in ast.walk(encl):
+                        if isinstance(st, ast.FunctionDef) and st is not encl and st.name not in fr.vars:
+                            direct = any(st is b for b in ast.walk(encl)
+                                         if isinstance(b, ast.FunctionDef)) and st in _direct_defs(encl)
+                            if direct:
+                                fr.vars[st.name] = py(PyFunc(st, fr, mi, (prefix + "." if prefix else "") + st.name),
+                                                      "func")
                 try:
                     if rkind == "body":
                         if isinstance(region_node, ast.While):
@@ -526,6 +561,24 @@ class Interp(Run, StmtMixin, ExprMixin, CallMixin, BuiltinMixin, LoopMixin, Spec
                                 text=f"raises only {names}", where=f"raise ({pr.origin})")
                 self.solve(ob)
                 self.obligs.append(ob)
+
+
+def _direct_defs(fn):
+    """FunctionDefs defined directly in fn's body (not inside nested defs)"""
+    out = []
+    stack = list(fn.body)
+    while stack:
+        st = stack.pop()
+        if isinstance(st, ast.FunctionDef):
+            out.append(st)
+            continue
+        if isinstance(st, ast.ClassDef):
+            continue
+        for fld in ("body", "orelse", "finalbody"):
+            stack.extend(getattr(st, fld, []) or [])
+        for h in getattr(st, "handlers", []) or []:
+            stack.extend(h.body)
+    return out
 
 
 def skolem_values(m):
